@@ -43,7 +43,7 @@ func init() {
 		pkgPath:   "github.com/yandex/pandora/components/providers/http/decoders",
 		module:    "AmmoDec",
 		namespace: "Pandora.Gen.AmmoDec",
-		imports:   []string{"Pandora.Model.C07"},
+		imports:   []string{"Pandora.Model.C07", "Pandora.Model.C07Heap"},
 		extra:     ammodecExtra,
 	}
 }
@@ -372,9 +372,17 @@ func ammodecSepArgs(calls []ammodecCall) []string {
 }
 
 // ammodecSetup finds the call `<x>.Setup(method, url, body, header, tag)` of decoders/ammo.Ammo in fd and returns
-// the constant method and the source of the FIRST value given to the variable passed as header.
-func (x *ammodecX) setup(p *packages.Package, fd *ast.FuncDecl) (method string, headerInit string) {
-	method, headerInit = "[]", "?"
+// the constant method and the ORIGIN of the map passed as header, a classification of EVERY value the variable is
+// ever given in fd (`:=` and `=`), independent of names and of the order of statements:
+//
+//	HdrOrigin.clone   every value is `<e>.Clone()` with <e> of type net/http.Header (a fresh map per entry)
+//	HdrOrigin.alias   every value is a plain variable / field of type net/http.Header (the accumulator itself)
+//	HdrOrigin.mixed   both occur (e.g. a clone only under some condition)
+//	HdrOrigin.other   anything else (make, a literal, another function): not what the model describes
+//
+// Writes THROUGH the variable (`header[k] = …`, `header.Set`) do not change which map it refers to and are ignored.
+func (x *ammodecX) setup(p *packages.Package, fd *ast.FuncDecl) (method string, origin string) {
+	method, origin = "[]", `HdrOrigin.other "?"`
 	if fd == nil {
 		return
 	}
@@ -396,25 +404,96 @@ func (x *ammodecX) setup(p *packages.Package, fd *ast.FuncDecl) (method string, 
 	} else {
 		x.fail(p, setup, "%s: the method given to Setup is not a constant", fd.Name.Name)
 	}
-	hid, ok := setup.Args[3].(*ast.Ident)
-	if !ok {
-		headerInit = ammodecShape(p, setup.Args[3])
-		return
+	kinds := map[string]bool{}
+	classify := func(e ast.Expr) {
+		kinds[ammodecHeaderValueKind(p, e)] = true
 	}
-	obj := p.TypesInfo.ObjectOf(hid)
-	ast.Inspect(fd.Body, func(n ast.Node) bool {
-		as, ok := n.(*ast.AssignStmt)
-		if !ok || headerInit != "?" {
-			return true
+	hid, ok := ast.Unparen(setup.Args[3]).(*ast.Ident)
+	if !ok {
+		classify(setup.Args[3]) // the expression is evaluated at the call
+	} else {
+		obj := p.TypesInfo.ObjectOf(hid)
+		if v, isVar := obj.(*types.Var); isVar && ammodecIsParam(fd, p, v) {
+			kinds["alias"] = true // the caller's map is passed on as it is
 		}
-		for i, l := range as.Lhs {
-			if id, ok := l.(*ast.Ident); ok && p.TypesInfo.ObjectOf(id) == obj && as.Tok == token.DEFINE && i < len(as.Rhs) {
-				headerInit = ammodecSrc(p, as.Rhs[i])
+		ast.Inspect(fd.Body, func(n ast.Node) bool {
+			switch st := n.(type) {
+			case *ast.AssignStmt:
+				for i, l := range st.Lhs {
+					if id, ok := l.(*ast.Ident); ok && p.TypesInfo.ObjectOf(id) == obj && (st.Tok == token.DEFINE || st.Tok == token.ASSIGN) {
+						if len(st.Rhs) == len(st.Lhs) {
+							classify(st.Rhs[i])
+						} else {
+							kinds["other:multi-value"] = true
+						}
+					}
+				}
+			case *ast.ValueSpec:
+				for i, id := range st.Names {
+					if p.TypesInfo.ObjectOf(id) == obj {
+						// `var h http.Header` without a value: the nil map is no origin of its own (a path on which it
+						// reached Setup would deliver entries without their headers: the differential run's business)
+						if i < len(st.Values) {
+							classify(st.Values[i])
+						}
+					}
+				}
+			}
+			return true
+		})
+	}
+	var ks []string
+	for k := range kinds {
+		ks = append(ks, k)
+	}
+	sort.Strings(ks)
+	switch {
+	case len(ks) == 1 && ks[0] == "clone":
+		origin = "HdrOrigin.clone"
+	case len(ks) == 1 && ks[0] == "alias":
+		origin = "HdrOrigin.alias"
+	case len(ks) == 2 && ks[0] == "alias" && ks[1] == "clone":
+		origin = "HdrOrigin.mixed"
+	default:
+		origin = fmt.Sprintf("HdrOrigin.other %q", strings.Join(ks, ","))
+	}
+	return
+}
+
+func ammodecIsParam(fd *ast.FuncDecl, p *packages.Package, v *types.Var) bool {
+	if fd.Type.Params == nil {
+		return false
+	}
+	for _, f := range fd.Type.Params.List {
+		for _, n := range f.Names {
+			if p.TypesInfo.ObjectOf(n) == v {
+				return true
 			}
 		}
-		return true
-	})
-	return
+	}
+	return false
+}
+
+func ammodecIsHTTPHeader(ty types.Type) bool {
+	nt, ok := ty.(*types.Named)
+	return ok && nt.Obj().Pkg() != nil && nt.Obj().Pkg().Path() == "net/http" && nt.Obj().Name() == "Header"
+}
+
+// ammodecHeaderValueKind: "clone" for `<e>.Clone()` on an http.Header, "alias" for a variable / field / parenthesised
+// variable of type http.Header, "other:<shape>" otherwise.
+func ammodecHeaderValueKind(p *packages.Package, e ast.Expr) string {
+	e = ast.Unparen(e)
+	switch v := e.(type) {
+	case *ast.CallExpr:
+		if sel, ok := v.Fun.(*ast.SelectorExpr); ok && sel.Sel.Name == "Clone" && len(v.Args) == 0 && ammodecIsHTTPHeader(p.TypesInfo.TypeOf(sel.X)) {
+			return "clone"
+		}
+	case *ast.Ident, *ast.SelectorExpr:
+		if ammodecIsHTTPHeader(p.TypesInfo.TypeOf(e)) {
+			return "alias"
+		}
+	}
+	return "other:" + ammodecShape(p, e)
 }
 
 func ammodecExtra(t *tr) string {
@@ -459,7 +538,7 @@ func ammodecExtra(t *tr) string {
 	w("/-- `uriDecoder.readLine`: separator of `strings.Cut(data, …)` between target and tag -/\ndef uriTagSep : List UInt8 := %s\n\n", x.one(p, uriLine, "uri target/tag separator", ammodecSepArgs(uriCalls)))
 	m, hi := x.setup(p, uriLine)
 	w("/-- `uriDecoder.readLine`: method given to `Ammo.Setup` -/\ndef uriMethod : List UInt8 := %s\n\n", m)
-	w("/-- `uriDecoder.readLine`: first value of the header map stored in the ammo -/\ndef uriHeaderInit : String := %q\n\n", ammodecReplaceIdent(hi, "commonHeader"))
+	w("/-- `uriDecoder.readLine`: where the header map given to `Ammo.Setup` comes from (every value the variable is given) -/\ndef uriHeaderOrigin : HdrOrigin := %s\n\n", hi)
 
 	// ---- uripost
 	upScan, upBlock, upNew := ammodecFunc(p, "uripostDecoder", "Scan"), ammodecFunc(p, "uripostDecoder", "readBlock"), ammodecFunc(p, "", "newURIPostDecoder")
@@ -473,7 +552,7 @@ func ammodecExtra(t *tr) string {
 	w("def uripostHeaderMark : Nat := %s\n\n", x.one(p, upBlock, "uripost data[0] ==", ammodecCmpConsts(p, upBlock, "_[0]", token.EQL)))
 	m, hi = x.setup(p, upBlock)
 	w("def uripostMethod : List UInt8 := %s\n\n", m)
-	w("def uripostHeaderInit : String := %q\n\n", ammodecReplaceIdent(hi, "commonHeader"))
+	w("/-- `uripostDecoder.readBlock`: the same -/\ndef uripostHeaderOrigin : HdrOrigin := %s\n\n", hi)
 
 	// ---- raw
 	rawScan, rawNew := ammodecFunc(p, "rawDecoder", "Scan"), ammodecFunc(p, "", "newRawDecoder")
